@@ -22,6 +22,9 @@ def run(ctx):
         cache = valcorr.ExprCache()
         n = ctx.rng.choices([0, 1, 2, 3, 4, 5], [1, 2, 4, 4, 3, 2])[0]
         quals = [f"Q{j}" for j in range(n)]
+        if ctx.rng.random() < 0.3:
+            # qualifiers as code lists really spell them: digits, dots, lower-case letters, mixed case (an entered value is compared as it is written)
+            quals = ctx.rng.sample(["1.1a", "2.0a", "GABi-RLMoT", "GABi-RLMmT", "Z13", "E_0403", "ZD2", "9", "G_0057", "Z1a"], n)
         if n >= 2 and ctx.rng.random() < 0.1:
             quals[1] = quals[0]  # duplicate qualifier: dict semantics
         # entry expressions: all generators, plus a small fixed set of package-bearing expressions that recur across pools
@@ -39,7 +42,7 @@ def run(ctx):
                 k = ctx.rng.choice([q for q in range(n) if q not in (i, j)])
                 pool[k] = (pool[k][0], pool[k][1], ctx.rng.choice(["X [3]", "X [2]", "X [4]"]))
         # not offered, but close to what is: a fragment / an extension / another letter case of a qualifier, a fragment of the joined list of qualifiers
-        near = ["Q", "0", " ", ", ", "q0", "Q0 ", " Q0", "Q00", "Q0, Q1", "Q0,Q1", "Q1, Q2", ", Q1"] + [q[:-1] for q in quals] + [q + q for q in quals] + [", ".join(quals)]
+        near = ["Q", "0", " ", ", ", "q0", "Q0 ", " Q0", "Q00", "Q0, Q1", "Q0,Q1", "Q1, Q2", ", Q1"] + [q[:-1] for q in quals] + [q + q for q in quals] + [", ".join(quals)] + [q.lower() for q in quals] + [q.upper() for q in quals]
         inp = ctx.rng.choice([None, "", "ZZZ"] + quals + ([ctx.rng.choice(near)] if ctx.rng.random() < 0.6 else []))
         de = ("P", "pool", pool, inp)
         status = ctx.rng.choice(STATUSES)
@@ -49,6 +52,17 @@ def run(ctx):
         obs = f"(Exn {res[1]})" if res[0] == "exn" else f"(Ok {valcorr.vres_term(res[1], inv)})"
         terms.append(f"({gcer(rc, h, fc)}, {valcorr.de_term(de, cache)}, {status}, {obs})")
         metas.append((rc, fc, de, status, res))
+        # the same judgement when the element is reached through its segment (validate_segment -> validate_data_element): a required / optional segment
+        # hands its status down, the element's row is the one of the direct call
+        if status != "IS_FORBIDDEN" and res[0] == "ok":
+            seg = ("S", "seg", "Muss", [de])
+            t2, rows2 = valcorr.summarize(valcorr.run_segment(seg, status, True))
+            direct = valcorr.summarize(("ok", [res[1]]))[1][0]
+            if t2 != "ok" or len(rows2) != 2 or rows2[1] != direct:
+                ctx.fail(f"via-segment|{pool}|{inp}|{status}|{sorted(rc.items())}", {"pool": pool, "input": inp, "segment_status": status, "rc": rc, "fc": {k: list(x) for k, x in fc.items()},
+                                                                                      "packages": dict(valcorr.CURRENT_PACKAGES), "entry": "validate_segment"},
+                         f"the element's row as validate_data_element_valuepool reports it: {direct}", f"{rows2[1] if t2 == 'ok' and len(rows2) == 2 else rows2}",
+                         "oracle: a value pool reached through validate_segment is judged like the value pool on its own")
         # oracle
         if res[0] != "ok":
             continue
